@@ -3,6 +3,7 @@ package zzvh
 import (
 	"bufio"
 	"fmt"
+	"strconv"
 	"strings"
 
 	"github.com/evolbioinfo/gotree/io/nexus"
@@ -188,4 +189,128 @@ func c13setFloat(dst interface{}, v float64) {
 	case *float64:
 		*d = v
 	}
+}
+
+// ---------------------------------------------------------------------------
+// An independent reader for the subset of PhyloXML that gotree writes
+// (elements phylogeny, clade, name, branch_length, confidence).
+
+func c13readXML(s string) ([]*tree.Tree, string) {
+	var trees []*tree.Tree
+	var cur *tree.Tree
+	var stack []*tree.Node
+	var edges []*tree.Edge // branch leading to stack[i]
+	i := 0
+	for i < len(s) {
+		if s[i] != '<' {
+			i++
+			continue
+		}
+		j := i + 1
+		for j < len(s) && s[j] != '>' {
+			j++
+		}
+		if j >= len(s) {
+			return nil, "unterminated tag"
+		}
+		tag := s[i+1 : j]
+		k := 0
+		for k < len(tag) && tag[k] != ' ' {
+			k++
+		}
+		name := tag[:k]
+		i = j + 1
+		switch name {
+		case "phylogeny":
+			cur = tree.NewTree()
+			stack, edges = nil, nil
+		case "/phylogeny":
+			if cur == nil || len(stack) != 0 {
+				return nil, "phylogeny not well nested"
+			}
+			trees = append(trees, cur)
+			cur = nil
+		case "clade":
+			if cur == nil {
+				return nil, "clade outside phylogeny"
+			}
+			nd := cur.NewNode()
+			var e *tree.Edge
+			if len(stack) == 0 {
+				cur.SetRoot(nd)
+			} else {
+				e = cur.ConnectNodes(stack[len(stack)-1], nd)
+			}
+			stack = append(stack, nd)
+			edges = append(edges, e)
+		case "/clade":
+			if len(stack) == 0 {
+				return nil, "unbalanced </clade>"
+			}
+			stack = stack[:len(stack)-1]
+			edges = edges[:len(edges)-1]
+		case "name", "branch_length", "confidence":
+			e := i
+			for e < len(s) && s[e] != '<' {
+				e++
+			}
+			text := s[i:e]
+			if len(stack) == 0 {
+				return nil, "value outside clade"
+			}
+			switch name {
+			case "name":
+				stack[len(stack)-1].SetName(text)
+			case "branch_length":
+				v, err := strconv.ParseFloat(text, 64)
+				if err != nil || edges[len(edges)-1] == nil {
+					return nil, "bad branch_length"
+				}
+				edges[len(edges)-1].SetLength(v)
+			case "confidence":
+				v, err := strconv.ParseFloat(text, 64)
+				if err != nil || edges[len(edges)-1] == nil {
+					return nil, "bad confidence"
+				}
+				edges[len(edges)-1].SetSupport(v)
+			}
+			i = e
+		}
+	}
+	if cur != nil {
+		return nil, "unterminated phylogeny"
+	}
+	return trees, ""
+}
+
+// H_C13_phyloxml_writer: the PhyloXML text written for a list of trees is well
+// nested and describes exactly those trees (shape, child order, every name -
+// root and inner names included -, lengths, supports), as read by an
+// independent reader of the element subset gotree writes.
+func H_C13_phyloxml_writer() {
+	n := sxParam("n", 4)
+	k := 1 + sxChoose("ntrees", sxParam("maxtrees", 2))
+	src := make([]*tree.Tree, k)
+	for i := range src {
+		t := c13tree(n, fmt.Sprintf("t%d_", i))
+		// names on the root and on inner nodes too
+		if sxChoose(fmt.Sprintf("names%d", i), 2) == 1 {
+			for j, nd := range t.Nodes() {
+				if !nd.Tip() {
+					nd.SetName(fmt.Sprintf("in%d", j))
+				}
+			}
+		}
+		src[i] = t
+	}
+	sxReach("ready")
+	text, err := phyloxml.WritePhyloXML(treesChan(src))
+	sxAssert(err == nil, "WritePhyloXML succeeds")
+	got, why := c13readXML(text)
+	sxAssert(why == "", "the PhyloXML text is well nested")
+	sxAssert(len(got) == k, "one phylogeny per tree, none skipped")
+	for i := 0; i < k && i < len(got); i++ {
+		c01same(src[i].Root(), nil, got[i].Root(), nil, nil, nil)
+	}
+	sxReach("checked")
 }
